@@ -241,7 +241,7 @@ fn c16_q_container_len_5() {
 #[cfg_attr(kani, kani::proof)]
 #[cfg_attr(kani, kani::unwind(9))]
 #[cfg_attr(not(kani), test)]
-fn c16_t_container_len_7() {
+fn c16_x_container_len_7() {
     walk_len::<7>();
 }
 
@@ -282,7 +282,7 @@ fn c16_t_iter_4() {
 #[cfg_attr(kani, kani::proof)]
 #[cfg_attr(kani, kani::unwind(8))]
 #[cfg_attr(not(kani), test)]
-fn c16_t_iter_6() {
+fn c16_x_iter_6() {
     walk_iter::<6>();
 }
 
@@ -312,7 +312,7 @@ fn walk_tlv_iter<const N: usize>() {
 #[cfg_attr(kani, kani::unwind(6))]
 #[cfg_attr(kani, kani::stub(core::str::from_utf8, stub_from_utf8))]
 #[cfg_attr(not(kani), test)]
-fn c16_t_tlv_iter_4() {
+fn c16_x_tlv_iter_4() {
     walk_tlv_iter::<4>();
 }
 
@@ -320,7 +320,7 @@ fn c16_t_tlv_iter_4() {
 #[cfg_attr(kani, kani::unwind(8))]
 #[cfg_attr(kani, kani::stub(core::str::from_utf8, stub_from_utf8))]
 #[cfg_attr(not(kani), test)]
-fn c16_t_tlv_iter_6() {
+fn c16_x_tlv_iter_6() {
     walk_tlv_iter::<6>();
 }
 
@@ -332,7 +332,7 @@ fn c16_t_tlv_iter_6() {
 #[cfg_attr(kani, kani::unwind(12))]
 #[cfg_attr(kani, kani::stub(core::str::from_utf8, stub_from_utf8))]
 #[cfg_attr(not(kani), test)]
-fn c16_t_tlv_iter_nested_skeleton() {
+fn c16_x_tlv_iter_nested_skeleton() {
     use crate::tlv::{TLVWrite, ToTLV};
     use crate::utils::storage::WriteBuf;
     let (v1, v2, t) = (any_u8(), any_u8(), any_u8());
@@ -372,7 +372,7 @@ fn c16_t_tlv_iter_nested_skeleton() {
 #[cfg_attr(kani, kani::proof)]
 #[cfg_attr(kani, kani::unwind(6))]
 #[cfg_attr(not(kani), test)]
-fn c16_t_find_ctx_4() {
+fn c16_x_find_ctx_4() {
     let b: [u8; 4] = any_bytes::<4>();
     let len = any_usize();
     assume(len <= 4);
